@@ -18,7 +18,9 @@ type hcfg struct {
 	A   int64
 	B   int64
 	Bad bool
-	P   *hsub // pointer-to-struct section (non-nil in some defaults)
+	// an unexported field ahead of the reference-bearing one: copying must not stop here
+	hidden int8
+	P      *hsub // pointer-to-struct section (non-nil in some defaults)
 }
 
 type hsub struct {
